@@ -158,6 +158,8 @@ pub struct ArcPlan {
     pub drop_info_label: bool,
     pub nameless_record: Option<usize>,
     pub out_of_range_record: Option<usize>,
+    /// identical bodies are stored once; their records give the same range
+    pub share_bodies: bool,
 }
 
 /// Build a conforming (or deliberately broken, per plan) arc image.
@@ -179,12 +181,21 @@ pub fn arc_build(files: &[(String, Vec<u8>)], plan: &ArcPlan, rng: &mut Rng) -> 
         bodies.extend_from_slice(&[0xAB, 0xCD, 0xEF, 0x01]);
     }
     let data_label_rel = bodies.len();
+    let mut placed = vec![false; n];
     for i in order {
         if plan.gaps {
             let g = rng.range(0, 9);
             bodies.extend(std::iter::repeat(0x5A).take(g));
         }
+        if plan.share_bodies {
+            if let Some(j) = (0..n).find(|&j| j != i && placed[j] && files[j].1 == files[i].1) {
+                off[i] = off[j];
+                placed[i] = true;
+                continue;
+            }
+        }
         off[i] = bodies.len();
+        placed[i] = true;
         bodies.extend(&files[i].1);
     }
     let body_base; // address of the body area in the data region
@@ -259,6 +270,11 @@ pub fn arc_build(files: &[(String, Vec<u8>)], plan: &ArcPlan, rng: &mut Rng) -> 
         a.data[at + 12..at + 16].copy_from_slice(&offset.to_le_bytes());
         if plan.nameless_record != Some(slot) {
             a.text.insert(at, files[*i].0.clone());
+        } else if rng.bool() {
+            // the name cell is not empty but holds an ordinary pointer into the data region
+            // (where some bytes followed by a zero can be found): still a record without a name
+            let target = *rng.pick(&[base, body_base, data_label_at, at]);
+            a.ptrs.insert(at, target.min(final_len.saturating_sub(1)));
         }
         if plan.decoy_labels {
             a.labels.entry(at).or_default().push(files[*i].0.clone());
